@@ -1,4 +1,5 @@
 import DimodModel.Pack
+import DimodModel.PickleReduce
 import DimodModel.CooText
 import DimodModel.BytesDoc
 import DimodModel.Wire
@@ -187,6 +188,11 @@ def step (line : String) : String :=
     | some vt, some n, some sh, some d =>
       "ok " ++ listOr "|" (listOr "," showRat) (decodeSamples vt n ⟨pk = "1", sh, d⟩)
     | _, _, _, _ => "bad-op"
+  | ["cyreduce", order, lin, quad] => match parseNats? order, parseRats? lin, parseTriples? quad with
+    | some order, some lin, some quad =>
+      let r := CyBQM.reduce ⟨(List.range lin.length).map fun (i : Nat) => Label.int (i : Int), .spin, ⟨lin, quad, 0⟩⟩ order
+      s!"ok {listOr "," showRat r.ldata} {showTriples r.quad} {listOr "," (fun l => match l with | Label.int z => toString z | _ => "?") r.labels}"
+    | _, _, _ => "bad-op"
   | ["bqmvec", py, order, lin, quad] => match parseNats? order, parseRats? lin, parseTriples? quad with
     | some order, some lin, some quad =>
       let v := toVectors ⟨lin, quad, 0⟩ order (py = "1")
